@@ -1,2 +1,4 @@
+pub mod dec;
+pub mod digen;
 pub mod ev;
 pub mod util;
